@@ -215,9 +215,21 @@ def check_C06(ctx, replay=None):
         nprog = 1000 if ctx.tier == "quick" else 8000
         nev = 24 if ctx.tier == "quick" else 40
         for i in range(nprog):
-            kind, nops, toks = bg.program()
+            kind, nops, toks = bg.twoway() if i % 12 == 5 else bg.program()
             dist[kind] = dist.get(kind, 0) + 1
             lines.append("B b%d %d %d %s" % (i, rng.randint(0, 1), nops, toks))
+            lines += bg.events(nev)
+        # programs of more than 65536 instructions (the builder has no size limit): jumps across the whole program and
+        # labels, jumps and bridges at positions beyond 2^16
+        for j in range(1 if ctx.tier == "quick" else 4):
+            fill = 65536 + rng.choice([0, 1, 5, 300]) + j
+            ops = ["N", "N", "L 0", "J eq 3 2 3"] + ["%s %d" % (rng.choice("HL"), rng.randint(0, 5)) for _ in range(fill)]
+            ops += ["N", "N", "L 1", "J gt 2 4 5"] + ["L 2"] * rng.choice([0, 3, 254, 255, 256, 300]) + ["S 4", "R 196608", "S 5", "R 327685"]
+            ops += ["H 0"] * rng.choice([0, 1, 255, 256]) + ["S 2", "R 2147418112", "S 3", "R 327680"]
+            toks = " ".join(ops).split()
+            nops = sum(1 for t in toks if t in ("N", "J", "T", "G", "S", "R", "H", "L"))
+            dist["huge"] = dist.get("huge", 0) + 1
+            lines.append("B bh%d %d %d %s" % (j, rng.randint(0, 1), nops, " ".join(toks)))
             lines += bg.events(nev)
     cases, summary = st.run(lines)
     ndiff, nbad = report_case_failures(ctx, cases, "builder programs (C06)")
@@ -560,7 +572,7 @@ def check_C03(ctx, replay=None):
                       ["C03_compiled_program_is_decide", "C03_match_is_for_own_syscall", "C03_any_satisfied_list_matches",
                        "C03_unmatched_entry_as_absent", "C03_programs_agree_without_unmatched_entry",
                        "C03_source_entry_is_the_model", "C03_source_merge_is_the_model", "C03_validated_entries_nondegenerate", "C03_nonvacuous"],
-                      ["cond", "cond", "mixed", "mixed", "mixed_long", "condlong"],
+                      ["cond", "cond", "mixed", "mixed", "mixed_long", "condlong", "altmany"],
                       "policies mixing unconditional and conditional entries (1..4 groups, repeated names merged into OR lists, related alternatives of one syscall - sub-list, longer list, same list, permuted, one operand or operation changed - in either order, 1..85 conditions per list, repeated arguments, the same syscall in several groups; the four tables and the x32 table, whose numbers carry a mask - events then also use the numbers without the mask), compiled by the implementation and the extracted model (instruction-exact comparison); every accepted program run on events aimed at each list (satisfying / nearly satisfying every condition) and on events whose argument words equal other entries' syscall numbers and operands, against the extracted decide; non-trivial = accepted policy with conditional entries and events evaluated",
                       replay=replay, npol=(400, 4000), nev=(50, 100), gen=gen,
                       arches=PolicyGen.TABLE_ARCHES * 2 + ["X32"])
@@ -669,7 +681,7 @@ def check_C05(ctx, replay=None):
     rng = random.Random(ctx.seed * 1000003 + 5005)
     theorems = C05_THEOREMS
     res = check_core_policy(ctx, "C05", "C05.v", theorems,
-                            ["names", "names_long", "cond", "mixed", "mixed_long", "condlong", "degenerate", "degenerate", "whole_table"],
+                            ["names", "names_long", "cond", "mixed", "mixed_long", "condlong", "degenerate", "degenerate", "whole_table", "altmany"],
                             "policies of every kind including degenerate ones (groups without names, one name, the whole table, 85-condition lists, programs over 4096 instructions), all four tables, both byte orders: the implementation's program, raw-encoded by the extracted encoder, is judged by the extracted kernel_check (a port of bpf_check_classic + seccomp_check_filter, proved sound in Coq) and its returns are compared with the closed set; the kernel_check model itself is validated against the RUNNING kernel on the implementation's programs and on systematically damaged variants (out-of-range jt/jf/k, unaligned / >=64 / negative load offsets, foreign opcodes, no final return, length 0 and 4097, truncations) offered to seccomp(2) in throw-away child processes; non-trivial = distinct accepted programs judged + distinct damaged variants on which kernel and model were compared",
                             replay=replay, npol=(300, 4000), nev=(10, 30))
     if res is None:
